@@ -325,6 +325,129 @@ func c11ApplySetters(d *vf.Driver, s *c11Hdr, w vf.Wire) (vf.Wire, error) {
 	return w, err
 }
 
+// names: the member names the header will be emitted with (registered names per the setters
+// called, thumbprints derived from a chain, unregistered members).
+func (s *c11Hdr) names(isJWE bool, forcedEnc bool) map[string]bool {
+	n := map[string]bool{}
+	set := func(name string, on bool) {
+		if on {
+			n[name] = true
+		}
+	}
+	set("alg", s.Alg != "")
+	set("jku", s.Jku != 0)
+	set("jwk", s.Jwk != 0)
+	set("kid", s.Kid != "")
+	set("x5u", s.X5u != 0)
+	set("x5c", s.X5cN > 0)
+	set("x5t", s.X5cN > 0 || s.X5t != nil)
+	set("x5t#S256", s.X5cN > 0 || s.X5tS256 != nil)
+	set("typ", s.Typ != "")
+	set("cty", s.Cty != "")
+	set("crit", len(s.expectedCrit(isJWE)) > 0)
+	if isJWE {
+		set("enc", s.Enc != "" || forcedEnc)
+		set("zip", s.Zip != "")
+		set("epk", s.Epk != 0)
+		set("apu", s.Apu != nil)
+		set("apv", s.Apv != nil)
+		set("iv", s.Iv != nil)
+		set("tag", s.Tag != nil)
+		set("p2s", s.P2s != nil)
+		set("p2c", s.P2c != 0)
+	} else {
+		set("b64", s.NoB64)
+	}
+	for k := range s.Raw {
+		n[k] = true
+	}
+	return n
+}
+
+// strip unsets every parameter whose member name is in used: a standards-conformant message
+// carries each Header Parameter name in ONE of its header positions (RFC 7515 §7.2.1, 7516 §7.2.1).
+func (s *c11Hdr) strip(used map[string]bool) {
+	if used["alg"] {
+		s.Alg = ""
+	}
+	if used["jku"] {
+		s.Jku = 0
+	}
+	if used["jwk"] {
+		s.Jwk = 0
+	}
+	if used["kid"] {
+		s.Kid = ""
+	}
+	if used["x5u"] {
+		s.X5u = 0
+	}
+	if used["x5c"] || ((used["x5t"] || used["x5t#S256"]) && s.X5cN > 0) {
+		s.X5cN, s.X5cOff = 0, 0
+		s.X5t, s.X5tS256 = nil, nil // "match" needs the chain
+	}
+	if used["x5t"] {
+		s.X5t = nil
+	}
+	if used["x5t#S256"] {
+		s.X5tS256 = nil
+	}
+	if used["typ"] {
+		s.Typ = ""
+	}
+	if used["cty"] {
+		s.Cty = ""
+	}
+	if used["crit"] {
+		s.SetCrit, s.Crit = false, nil
+	}
+	if used["enc"] {
+		s.Enc = ""
+	}
+	if used["zip"] {
+		s.Zip = ""
+	}
+	if used["epk"] {
+		s.Epk = 0
+	}
+	if used["apu"] {
+		s.Apu = nil
+	}
+	if used["apv"] {
+		s.Apv = nil
+	}
+	if used["iv"] {
+		s.Iv = nil
+	}
+	if used["tag"] {
+		s.Tag = nil
+	}
+	if used["p2s"] {
+		s.P2s = nil
+	}
+	if used["p2c"] {
+		s.P2c = 0
+	}
+	for k := range s.Raw {
+		if used[k] {
+			delete(s.Raw, k)
+		}
+	}
+	if len(s.Raw) == 0 {
+		s.Raw = nil
+	}
+}
+
+func c11Union(ms ...map[string]bool) map[string]bool {
+	u := map[string]bool{}
+	for _, m := range ms {
+		for k := range m {
+			u[k] = true
+		}
+	}
+	return u
+}
+
 // ---- independent reading -------------------------------------------------------------------------
 
 // expectedCrit: what the API documents for crit (jws: duplicates dropped, sorted, "b64" added by
